@@ -164,7 +164,7 @@ def check_property(pid, tier, base_seed, out=sys.stdout, write_evidence=True, ex
     time_budget = spec.get('budget_s', {'quick': 100, 'thorough': 1500})[tier]
     fams = spec['families']       # list of (family, weight, [builds])
     wsum = sum(w for _, w, _ in fams)
-    jobs = []; meta = []
+    jobs = []; meta = []; replays = {}
     for fam, w, builds in fams:
         n = max(len(builds), int(round(n_total * w / wsum)))
         for i in range(n):
@@ -172,7 +172,12 @@ def check_property(pid, tier, base_seed, out=sys.stdout, write_evidence=True, ex
             sd = seed_of(base_seed, fam, i)
             jobs.append((b, ['--family', fam, '--seed', sd] + list(extra_overrides)))
             meta.append((fam, b, sd))
-    # special generators (fault enumeration etc.) may add jobs
+    # special generators (fault enumeration etc.) add replay-file jobs
+    jobtmp = None; extra_cov = {}
+    if spec.get('jobgen'):
+        jobtmp = tempfile.mkdtemp(prefix='vgen-', dir=os.path.join(VERIF, 'build'))
+        for (b, path, fam, sd) in spec['jobgen'](dict(bdir=bdir, tmp=jobtmp, tier=tier, seed=base_seed, simrun=simrun, dump_plan=dump_plan, seed_of=seed_of, cov=extra_cov)):
+            jobs.append((b, ['--replay', path])); meta.append((fam, b, sd)); replays[len(jobs) - 1] = path
     results = []
     # run in slices so that the time budget is respected
     slice_n = 2000
@@ -190,7 +195,8 @@ def check_property(pid, tier, base_seed, out=sys.stdout, write_evidence=True, ex
     distinct = set(); distinct_nt = set()
     nontrivial = spec.get('nontrivial')
     viol = []; infra = []
-    for (code, r), (fam, b, sd) in zip(results, meta):
+    for ji, ((code, r), (fam, b, sd)) in enumerate(zip(results, meta)):
+        r['_job'] = ji
         st = r.get('status')
         agg[st if st in ('ok', 'violation', 'infra') else 'infra'] += 1
         f = agg['by_family'].setdefault(fam, {'runs': 0, 'violations': 0}); f['runs'] += 1
@@ -218,7 +224,8 @@ def check_property(pid, tier, base_seed, out=sys.stdout, write_evidence=True, ex
     for (oracle, b), vs in sorted(classes.items(), key=lambda kv: str(kv[0])):
         fam, b, sd, r = vs[0]
         kn = match_known(known, pid, r)
-        plan = dump_plan(bdir, b, fam, sd, list(extra_overrides))
+        if r.get('_job') in replays: plan = json.load(open(replays[r['_job']]))['plan']
+        else: plan = dump_plan(bdir, b, fam, sd, list(extra_overrides))
         tmpd = tempfile.mkdtemp(prefix='vgate-', dir=os.path.join(VERIF, 'build'))
         rp = os.path.join(tmpd, 'r.json'); json.dump({'plan': plan}, open(rp, 'w'))
         # gate: fresh-process replay must reproduce class and event hash, twice
@@ -272,8 +279,10 @@ def check_property(pid, tier, base_seed, out=sys.stdout, write_evidence=True, ex
                            'components': COMPONENTS, 'status_counts': {k: agg[k] for k in ('ok', 'violation', 'infra')}, 'reported': reported},
               'assumptions': ASSUMPTIONS + spec.get('assumptions', []), 'wall_s': round(wall, 2), 'violations': sum(1 for x in reported if 'replay' in x)}
         if spec.get('exhaustive_note'): ev['coverage']['exhaustive_dimension'] = spec['exhaustive_note']
+        ev['coverage'].update(extra_cov)
         os.makedirs(os.path.join(VERIF, 'evidence'), exist_ok=True)
         json.dump(ev, open(os.path.join(VERIF, 'evidence', pid + '.json'), 'w'), indent=1)
+    if jobtmp: shutil.rmtree(jobtmp, ignore_errors=True)
     out.write('%s %s: %d runs (%d ok, %d violating, %d infra) in %.1fs; %d distinct non-trivial; %d scheduling points, %d switches\n' % (pid, tier, len(results), agg['ok'], agg['violation'], agg['infra'], wall, len(distinct_nt), agg['steps'], agg['switches']))
     return exit_code
 
